@@ -590,7 +590,7 @@ impl MainState {
         ensures
             conn_same_but_stream(*final(conn_state), *old(conn_state)), // @prop C01
             r is Ok ==> privmsg_post(self.config.name@, *old(state), *old(conn_state), notice, text@, str_views(targets@),
-                old(outbox).log, final(outbox).log, old(conn_state).stream.log(), final(conn_state).stream.log()), // @prop C01,C10
+                old(outbox).log, final(outbox).log, old(conn_state).stream.log(), final(conn_state).stream.log()), // @prop C01
             // NOTICE is never answered
             notice ==> final(conn_state).stream.log() == old(conn_state).stream.log(), // @prop C10
             log_extends(old(conn_state).stream.log(), final(conn_state).stream.log()), // @prop C10
